@@ -116,8 +116,59 @@ theorem unaryOf_vok (op : UnOp) (x r : Value) (mask : Nat) (hx : VOk x) (h : una
       | exact pat_lt _ _
       | exact hb
 
-theorem binaryOf_vok (op : BinOp) (hop : ¬ IsShift op) (x y r : Value) (mask : Nat) (hx : VOk x) (hy : VOk y)
+theorem shr_le (n c : Nat) : n >>> c ≤ n := by
+  rw [Nat.shiftRight_eq_div_pow]; exact Nat.div_le_self _ _
+
+theorem ite_lt {c : Prop} [Decidable c] (x y n : Nat) (hx : x < n) (hy : y < n) : (if c then x else y) < n := by
+  split <;> assumption
+
+theorem shl_vok (x y r : Value) (mask : Nat) (hx : VOk x) (h : x.shl y mask = .ok r) : VOk r := by
+  obtain ⟨tx, bx⟩ := x
+  obtain ⟨hwx, hix⟩ := hx
+  simp only [Value.shl] at h
+  obtain ⟨c, _, h⟩ := _root_.bind_eq_ok h
+  cases tx <;> simp [IsInt, ValueType.kind] at hix <;> simp only [ValueType.kind] at h <;> cases h
+  all_goals refine ⟨?_, by simp [IsInt, ValueType.kind]⟩
+  all_goals (show _ < _)
+  all_goals simp only [ValueType.width]
+  all_goals exact ite_lt _ _ _ (by omega) (Nat.mod_lt _ (Nat.two_pow_pos _))
+
+theorem shr_vok (x y r : Value) (mask : Nat) (hx : VOk x) (h : x.shr y mask = .ok r) : VOk r := by
+  obtain ⟨tx, bx⟩ := x
+  obtain ⟨hwx, hix⟩ := hx
+  have hb : bx < 2 ^ tx.width := hwx
+  simp only [Value.shr] at h
+  obtain ⟨c, _, h⟩ := _root_.bind_eq_ok h
+  cases tx <;> simp [IsInt, ValueType.kind] at hix <;> simp only [ValueType.kind] at h <;> cases h
+  all_goals refine ⟨?_, by simp [IsInt, ValueType.kind]⟩
+  all_goals (show _ < _)
+  all_goals simp only [ValueType.width] at hb ⊢
+  all_goals first
+    | exact ite_lt _ _ _ (by omega) (Nat.lt_of_le_of_lt (shr_le _ _) (and_lt64 _ _ hb))
+    | exact ite_lt _ _ _ (by omega) (Nat.lt_of_le_of_lt (shr_le _ _) hb)
+
+theorem shra_vok (x y r : Value) (mask : Nat) (hx : VOk x) (h : x.shra y mask = .ok r) : VOk r := by
+  obtain ⟨tx, bx⟩ := x
+  obtain ⟨hwx, hix⟩ := hx
+  simp only [Value.shra] at h
+  obtain ⟨c, _, h⟩ := _root_.bind_eq_ok h
+  cases tx <;> simp [IsInt, ValueType.kind] at hix <;> simp only [ValueType.kind] at h <;> cases h
+  all_goals refine ⟨?_, by simp [IsInt, ValueType.kind]⟩
+  all_goals (show _ < _)
+  all_goals simp only [ValueType.width]
+  all_goals exact ite_lt _ _ _ (ite_lt _ _ _ (by omega) (by omega)) (pat_lt _ _)
+
+theorem shift_vok (op : BinOp) (hop : IsShift op) (x y r : Value) (mask : Nat) (hx : VOk x)
     (h : binaryOf op x y mask = .ok r) : VOk r := by
+  cases op <;> simp [IsShift] at hop
+  · exact shl_vok x y r mask hx h
+  · exact shr_vok x y r mask hx h
+  · exact shra_vok x y r mask hx h
+
+theorem binaryOf_vok (op : BinOp) (x y r : Value) (mask : Nat) (hx : VOk x) (hy : VOk y)
+    (h : binaryOf op x y mask = .ok r) : VOk r := by
+  by_cases hop : IsShift op
+  · exact shift_vok op hop x y r mask hx h
   cases op <;> simp only [binaryOf] at h
   case add => exact arith_vok _ _ _ _ _ _ _ hx h
   case sub => exact arith_vok _ _ _ _ _ _ _ hx h
